@@ -49,7 +49,7 @@ CLAIMS = {
             "DESIGN.md section 6 C12", "modulo fuel"),
     "C04": ("proof", "Coq proof of the key code's minimum distance (vm_compute sweep over regenerated tables, lifted by induction) + differential on incremental/recomputed keys",
             "PARTIAL proof. Proved: any 1..4 distinct entries of the regenerated key tables XOR to a non-zero value (positions differing in up to four "
-            "key features get different keys). Not proved yet: incremental = recomputed, key = XOR of features; those rest on the correspondence "
+            "key features get different keys); null moves keep incremental = recomputed. Not proved yet: incremental = recomputed for real moves, key = XOR of features; those rest on the correspondence "
             "run (every legal move and null move of sampled positions, whole play-outs, all positions met: equal features <=> equal key).",
             "DESIGN.md section 6 C04", ""),
     "C05": ("proof", "Coq lemmas on the model of `moves`/`position` + differential against the token-denotation specification",
@@ -58,13 +58,15 @@ CLAIMS = {
             "rests on the correspondence run.", "DESIGN.md section 6 C05", ""),
     "C07": ("proof", "Coq proof parse => validate for every string in both arithmetic modes + differential in both builds",
             "PARTIAL proof. Proved for every string and both modes: an accepted string yields a position that passed validate with the key "
-            "recomputed from scratch, and what validate guarantees (spelled out). Bitboard consistency (parity argument) and completeness on D "
-            "rest on the correspondence run (executable Valid on each accepted string, both builds).", "DESIGN.md section 6 C07", ""),
+            "recomputed from scratch, what validate guarantees (spelled out), and consistent bitboards (us|them = union of the piece boards, by the "
+            "XOR-parity invariant of the board loop). Completeness on D and 'a well-formed string denotes what it spells' rest on the "
+            "correspondence run (both builds).", "DESIGN.md section 6 C07", ""),
     "C10": ("proof", "Coq proof: vm_compute sweep over regenerated magics lifted to all occupancies; exhaustive differential vs geometry",
             "Full proof about the model: magic lookup (table generated as in build.rs, indexed as in magic.rs, constants regenerated "
             "from the source on every run) equals the coordinate ray walk for every square and every occupancy (no bound), and "
-            "every index stays inside the table. Leaper and ray-fill functions: exhaustive/random differential against geometry "
-            "computed independently (their set-wise theorems are not proved yet).", "DESIGN.md section 6 C10", ""),
+            "every index stays inside the table; the set-wise knight / king / pawn attack functions equal the union of per-square "
+            "geometry for every bitboard below 2^64 (linearity + 64 finite facts each) and the per-square tables equal geometry. "
+            "Only the eight ray-fill helpers of rays.rs are compared (random occupancies vs geometry) rather than proved.", "DESIGN.md section 6 C10", ""),
     "C13": ("proof", "Coq proof by induction on fuel (history preserved through negamax and the root loop) + repeated real searches",
             "Proof on the model: every search that returns gives back the history it was given (any limit, window, table), the position is "
             "passed by value, and the model is a function of its inputs. That the Rust has no hidden input is measured: state snapshots and "
